@@ -1,0 +1,53 @@
+//go:build verif
+
+package interp
+
+import (
+	"go/build"
+	"io/fs"
+	"sync/atomic"
+)
+
+// verifStepHook, when set, is called before each interpreted operation
+// executed by runCfg, after the run-id gate. It is only compiled with the
+// verif build tag and is used by external verification harnesses.
+var verifStepHook atomic.Value // of func(*Interpreter, uint64, uint64)
+
+// VerifSetStep installs (or removes, with nil) the step hook. The hook receives
+// the interpreter, the run id of the executing frame and the interpreter's run id.
+func VerifSetStep(h func(i *Interpreter, frameRunID, interpRunID uint64)) {
+	verifStepHook.Store(h)
+}
+
+func verifStep(i *Interpreter, f *frame) {
+	h, _ := verifStepHook.Load().(func(*Interpreter, uint64, uint64))
+	if h != nil {
+		h(i, f.runid(), i.runid())
+	}
+}
+
+// VerifSkipFile exposes skipFile (file-name based build selection).
+func VerifSkipFile(ctx *build.Context, p string, skipTest bool) bool {
+	return skipFile(ctx, p, skipTest)
+}
+
+// VerifBuildOk exposes buildOk (header build-constraint evaluation on a source text).
+func (interp *Interpreter) VerifBuildOk(name, src string) (bool, error) {
+	return interp.buildOk(&interp.context, name, src)
+}
+
+// VerifContext returns a copy of the interpreter build context.
+func (interp *Interpreter) VerifContext() build.Context { return interp.context }
+
+// VerifPkgDir exposes pkgDir (vendor / GOPATH resolution).
+func (interp *Interpreter) VerifPkgDir(goPath, root, importPath string) (string, string, error) {
+	return interp.pkgDir(goPath, root, importPath)
+}
+
+// VerifEffectivePkg exposes effectivePkg.
+func VerifEffectivePkg(root, p string) string { return effectivePkg(root, p) }
+
+// VerifPreviousRoot exposes previousRoot.
+func VerifPreviousRoot(filesystem fs.FS, rootPath, root string) (string, error) {
+	return previousRoot(filesystem, rootPath, root)
+}
